@@ -751,7 +751,8 @@ impl Wal {
                 }
                 WalRecord::CommitTx { txid } => {
                     if current_txid != Some(txid) {
-                        return Err(Error::WalProtocol("CommitTx without matching BeginTx"));
+                        // not part of any committed transaction: the log ends here
+                        break;
                     }
                     out.push(CommittedTx {
                         txid,
@@ -761,7 +762,8 @@ impl Wal {
                 }
                 other => {
                     if current_txid.is_none() {
-                        return Err(Error::WalProtocol("op outside tx"));
+                        // a stray record behind the last commit: the log ends here
+                        break;
                     }
                     pending.push(other);
                 }
@@ -826,10 +828,31 @@ impl WalReader {
         Ok(Self { file, offset: 0 })
     }
 
-    /// Length of the prefix of the file that consists of well-formed records.
+    /// Length of the prefix of the file that ends with the last complete transaction: the
+    /// records are well formed and every one of them belongs to a `BeginTx … CommitTx` bracket.
+    /// Anything behind it (torn records, a transaction without its commit, stray records) was
+    /// never committed.
     fn valid_prefix_len(&mut self) -> Result<u64> {
-        while self.next_record()?.is_some() {}
-        Ok(self.offset)
+        let mut committed_end = 0u64;
+        let mut current_txid: Option<u64> = None;
+        while let Some((_, record)) = self.next_record()? {
+            match record {
+                WalRecord::BeginTx { txid } => current_txid = Some(txid),
+                WalRecord::CommitTx { txid } => {
+                    if current_txid != Some(txid) {
+                        break;
+                    }
+                    current_txid = None;
+                    committed_end = self.offset;
+                }
+                _ => {
+                    if current_txid.is_none() {
+                        break;
+                    }
+                }
+            }
+        }
+        Ok(committed_end)
     }
 
     fn next_record(&mut self) -> Result<Option<(u64, WalRecord)>> {
